@@ -285,7 +285,9 @@ class ReverseComplementer(SingleEndModifier):
 
         forward_score = sum(m.score for m in forward_matches)
         reverse_score = sum(m.score for m in reverse_matches)
-        use_reverse_complement = reverse_score > forward_score
+        # Use the reverse complement only if an adapter was found in it
+        # (match scores can be negative)
+        use_reverse_complement = bool(reverse_matches) and reverse_score > forward_score
 
         if use_reverse_complement:
             self.reverse_complemented += 1
@@ -371,7 +373,10 @@ class PairedReverseComplementer(PairedEndModifier):
         )
 
         # Compare and pick the variant that is better
-        use_reverse_complement = swapped_score > unswapped_score
+        use_reverse_complement = (
+            bool(r1_matches_swapped or r2_matches_swapped)
+            and swapped_score > unswapped_score
+        )
 
         if use_reverse_complement:
             self.reverse_complemented += 1
